@@ -37,6 +37,8 @@ pub struct PairCfg {
     pub losses: u8,
     pub timer_fires: u8,
     pub sub_ops: bool,
+    /// manual responses: the application may send the PUBREL it owes later (also after a loss and resume)
+    pub defer_pubrel: bool,
 }
 
 #[derive(Clone, Copy, Debug, PartialEq, Eq, Hash)]
@@ -56,6 +58,8 @@ pub enum Act {
     DeliverPartial(bool, u8),
     Timer(bool, Tk),
     Lose,
+    /// the application of the client (true) / server sends the PUBREL it still owes for this id
+    Owed(bool, u32),
 }
 
 #[derive(Clone, Debug, PartialEq, Eq, Hash)]
@@ -96,6 +100,8 @@ pub struct Pair<P: Pid> {
     server_has_session: bool,
     c_armed: [bool; 3],
     s_armed: [bool; 3],
+    /// PUBRELs the (manual) applications still owe: (client side?, id)
+    owed: Vec<(bool, u32)>,
     /// the application's accepted alias registrations on the current connection (alias -> topic)
     c_alias: Vec<(u16, u8)>,
     s_alias: Vec<(u16, u8)>,
@@ -161,6 +167,7 @@ impl<P: Pid> Pair<P> {
             server_has_session: false,
             c_armed: [false; 3],
             s_armed: [false; 3],
+            owed: vec![],
             c_alias: vec![],
             s_alias: vec![],
         };
@@ -261,7 +268,15 @@ impl<P: Pid> Pair<P> {
                         }
                         AP::Ack { kind: AckKind::Pubrec, pid, code, .. } if !auto => {
                             if code.map(|c| c < 0x80).unwrap_or(true) {
-                                replies.push(AP::Ack { ver, kind: AckKind::Pubrel, pid: *pid, code: None, props: None });
+                                if self.cfg.defer_pubrel {
+                                    if !self.owed.contains(&(client, *pid)) {
+                                        self.owed.push((client, *pid));
+                                        self.owed.sort();
+                                    }
+                                    out.label("c01.pubrel-deferred");
+                                } else {
+                                    replies.push(AP::Ack { ver, kind: AckKind::Pubrel, pid: *pid, code: None, props: None });
+                                }
                             }
                         }
                         AP::Ack { kind: AckKind::Pubrel, pid, .. } if !auto => replies.push(AP::Ack { ver, kind: AckKind::Pubcomp, pid: *pid, code: None, props: None }),
@@ -327,7 +342,7 @@ impl<P: Pid> Pair<P> {
     }
 
     fn quiescent(&self) -> bool {
-        self.c2s.is_empty() && self.s2c.is_empty() && self.c_st == St::Connected && self.s_st == St::Connected
+        self.c2s.is_empty() && self.s2c.is_empty() && self.c_st == St::Connected && self.s_st == St::Connected && self.owed.is_empty()
     }
 
     fn op_enabled(&self, client: bool, op: &Op) -> bool {
@@ -504,6 +519,12 @@ impl<P: Pid> World for Pair<P> {
         if self.losses < cfg.losses {
             v.push(Act::Lose);
         }
+        for (client, id) in &self.owed {
+            let st = if *client { self.c_st } else { self.s_st };
+            if st == St::Connected && self.c_st == St::Connected {
+                v.push(Act::Owed(*client, *id));
+            }
+        }
         v
     }
     fn step(&mut self, a: &Act, out: &mut StepOut) {
@@ -549,6 +570,17 @@ impl<P: Pid> World for Pair<P> {
                 // a keep-alive timeout legitimately closes the transport: treated as a loss
                 self.handle(*client, evs, true, out);
             }
+            Act::Owed(client, id) => {
+                self.owed.retain(|x| x != &(*client, *id));
+                let r = AP::Ack { ver: self.cfg.ver, kind: AckKind::Pubrel, pid: *id, code: None, props: None };
+                let evs = if *client { self.c.send(bridge::build::<P>(&r).ok().expect("pubrel")) } else { self.s.send(bridge::build::<P>(&r).ok().expect("pubrel")) };
+                if evs.iter().any(|e| matches!(e, Ev::Error(_))) {
+                    let d = format!("the PUBREL the application owes for id {id} is refused: {:?}", evs.iter().map(|e| e.short()).collect::<Vec<_>>());
+                    self.viol(out, "c01.reply-refused", "c01.reply-refused|PUBREL(deferred)".into(), d);
+                }
+                out.label("c01.owed-pubrel-sent");
+                self.handle(*client, evs, true, out);
+            }
             Act::Lose => {
                 self.losses += 1;
                 if self.c2s_off > 0 || self.s2c_off > 0 {
@@ -560,7 +592,7 @@ impl<P: Pid> World for Pair<P> {
         self.check_quiescent(out);
     }
     fn key(&self) -> u128 {
-        crate::util::fp128(&(self.c.snap(), self.s.snap(), &self.c2s, &self.s2c, (self.c2s_off, self.s2c_off), &self.msgs, (self.ops_c, self.ops_s, self.losses, self.partials, self.timer_fires), (self.c_st, self.s_st, self.server_has_session), (self.c_armed, self.s_armed), (&self.c_alias, &self.s_alias)))
+        crate::util::fp128(&(self.c.snap(), self.s.snap(), &self.c2s, &self.s2c, (self.c2s_off, self.s2c_off), &self.msgs, (self.ops_c, self.ops_s, self.losses, self.partials, self.timer_fires), (self.c_st, self.s_st, self.server_has_session), (self.c_armed, self.s_armed), (&self.c_alias, &self.s_alias), &self.owed))
     }
     fn is_delivery(a: &Act) -> bool {
         matches!(a, Act::Deliver(_) | Act::DeliverPartial(_, _))
@@ -573,6 +605,7 @@ impl<P: Pid> World for Pair<P> {
             Act::DeliverPartial(d, _) => format!("DeliverPartial({})", if *d { "c->s" } else { "s->c" }),
             Act::Timer(c, k) => format!("Timer({},{k:?})", if *c { "client" } else { "server" }),
             Act::Lose => "Lose".into(),
+            Act::Owed(c, _) => format!("Owed({})", if *c { "client" } else { "server" }),
         }
     }
 }
@@ -631,10 +664,13 @@ pub fn configs(thorough: bool) -> Vec<PairCfg> {
         losses: if thorough { 2 } else { 1 },
         timer_fires: 0,
         sub_ops: false,
+        defer_pubrel: false,
     };
     for ver in [Ver::V4, Ver::V5] {
         v.push(base(ver, "auto/auto"));
         v.push(PairCfg { auto_c: false, auto_s: false, ..base(ver, "manual/manual") });
+        // manual responses where the PUBREL may be sent later, also on the other side of a loss
+        v.push(PairCfg { auto_c: false, auto_s: true, defer_pubrel: true, losses: 1, ..base(ver, "manual(deferred PUBREL)/auto") });
         v.push(PairCfg { auto_c: true, auto_s: false, sub_ops: true, ..base(ver, "auto/manual +sub/unsub/ping") });
         v.push(PairCfg { ka: 1, timer_fires: 1, auto_ping: thorough, losses: 1, ..base(ver, "keep-alive 1") });
         if thorough {
